@@ -71,6 +71,10 @@ where
         }
         _ => gen_smooth(&mut g, true),
     };
+    if params.get("offset").is_some() {
+        target.offset = pf(params, "offset");
+        o.count("probe_log_density_offset_runs", (target.offset != 0.0) as u64);
+    }
     target.eval_budget = 40_000;
     let d = target.d;
     let smooth = ps(params, "family") == "smooth" || ps(params, "family") == "scaled";
@@ -186,6 +190,20 @@ where
                 o.violate("eps_in_force", &format!("{site}:step-size-in-force"), format!("transition {m_total} used step size {} but {} was in force", lt.eps, in_force));
                 return o;
             }
+            // "driven by each transition's acceptance statistic": the statistic the library feeds into the
+            // recurrence is the one Algorithm 6 assigns to this transition (same draws, f64 reference)
+            if lt.alpha.is_finite() {
+                match crate::props::c03::reference_statistic(&target, lt, if name == "f32" { f32::EPSILON as f64 } else { f64::EPSILON }) {
+                    Some((ra, rn, rtol)) => {
+                        o.count("probe_statistic_judged_against_algorithm_6", 1);
+                        if (ra - lt.alpha).abs() > rtol {
+                            o.violate("statistic", &format!("{site}:acceptance-statistic-driving-adaptation"), format!("transition {m_total}: the library adapts on alpha = {} over {} leaves, Algorithm 6 with the same draws gives {ra} over {rn} (tolerance {rtol:e}) [{:?} d={d}, offset {}, eps {:e}]", lt.alpha, lt.n_alpha, target.kind, target.offset, lt.eps));
+                            return o;
+                        }
+                    }
+                    None => o.count("statistic_not_judged_ambiguous", 1),
+                }
+            }
             let stat = lt.alpha / lt.n_alpha as f64;
             let eta = 1.0 / (m_total as f64 + t0);
             h_bar = (1.0 - eta) * h_bar + eta * (delta_used - stat);
@@ -291,7 +309,10 @@ impl Scenario for DualAveraging {
                 json!([g.usize(1, 6), nd])
             })
             .collect();
-        json!({"float": *g.pick(&["f64", "f64", "f32"]), "family": *g.pick(&["smooth", "smooth", "smooth", "scaled", "scaled", "halfline", "box"]), "gseed": g.u64(), "seed": g.u64(), "accept": fbits(g.f64_in(0.5, 0.99)), "start_scale": fbits(g.log_uniform(0.1, 3.0)), "calls": calls})
+        let float = *g.pick(&["f64", "f64", "f32"]);
+        // an additive constant of the log-density (f64 only; in f32 it would legitimately swamp the energies)
+        let offset = if float == "f64" && g.bool(1, 4) { g.log_uniform(1e2, 1e9) * if g.bool(1, 2) { 1.0 } else { -1.0 } } else { 0.0 };
+        json!({"float": float, "family": *g.pick(&["smooth", "smooth", "smooth", "scaled", "scaled", "halfline", "box"]), "gseed": g.u64(), "seed": g.u64(), "accept": fbits(g.f64_in(0.5, 0.99)), "start_scale": fbits(g.log_uniform(0.1, 3.0)), "calls": calls, "offset": fbits(offset)})
     }
     fn execute(&self, p: &Value, ws: bool) -> Outcome {
         if ps(p, "float") == "f32" {
@@ -342,12 +363,16 @@ impl Scenario for AdaptationQuality {
         tier.pick(4, 200)
     }
     fn generate(&self, g: &mut Gen, _t: Tier, _i: u64) -> Value {
-        json!({"gseed": g.u64(), "seed": g.u64(), "accept": fbits(g.f64_in(0.65, 0.9)), "d": g.usize(1, 5)})
+        let offset = if g.bool(1, 2) { g.log_uniform(1e3, 1e9) * if g.bool(1, 2) { 1.0 } else { -1.0 } } else { 0.0 };
+        json!({"gseed": g.u64(), "seed": g.u64(), "accept": fbits(g.f64_in(0.65, 0.9)), "d": g.usize(1, 5), "offset": fbits(offset)})
     }
     fn execute(&self, p: &Value, ws: bool) -> Outcome {
         let mut o = Outcome::default();
         let mut g = Gen::new(pu(p, "gseed"));
         let mut target = GTarget::gauss(&mut g, pus(p, "d"), 9.0);
+        if p.get("offset").is_some() {
+            target.offset = pf(p, "offset");
+        }
         target.eval_budget = 2_000_000;
         let d = target.d;
         let delta = pf(p, "accept");
@@ -364,7 +389,16 @@ impl Scenario for AdaptationQuality {
             return o;
         }
         let trs = parse_transitions(&ev);
-        let post: Vec<f64> = trs.iter().filter(|t| t.complete && t.m > 500).map(|t| t.alpha / t.n_alpha as f64).collect();
+        // the realised statistic is measured by the reference (Algorithm 6 on the traced draws), not taken
+        // from the library's own report; transitions the reference cannot decide fall back to the report
+        let post: Vec<f64> = trs
+            .iter()
+            .filter(|t| t.complete && t.m > 500)
+            .map(|t| match crate::props::c03::reference_statistic(&target, t, f64::EPSILON) {
+                Some((ra, rn, _)) => ra / rn as f64,
+                None => t.alpha / t.n_alpha as f64,
+            })
+            .collect();
         o.work = trs.len() as u64;
         let mean = post.iter().sum::<f64>() / post.len().max(1) as f64;
         if post.len() >= 300 && (mean - delta).abs() > 0.25 {
